@@ -38,6 +38,8 @@ def run(chk, repo, tier):
     chk.floor('C03.R2', n2, 14)
     chk.floor('C03.R3', n3, 20)
     chk.floor('C03.R4', n4, 5)
+    from . import qnrules
+    qnrules.qnumber_rules(chk, repo, 'C03.R8')
     chk.undecided += ['dense equality up to rounding', 'the index arithmetic of the sparse as_matrix path (scipy.sparse reshapes are outside the '
                       'leg domain)', 'from_vector at tol = 0 numerically', 'MPO.identity beyond its layout']
     return ('Leg-domain evaluation of the product and merge code, AST layout rules for np.block / np.concatenate in the sums, '
